@@ -9,6 +9,7 @@ import numpy as np
 from .. import bindings as B
 from .. import project as P
 from .. import replay_session as R
+from .. import session_jobs as SJ
 from .. import tlc as T
 
 LEVEL = 'model_checking'
@@ -44,65 +45,18 @@ ALPHA = ["Sample", "SampleRaises", "SetSeed", "GlobalSeed", "GlobalDraw"]
 ALPHA_FIT = ALPHA + ["Fit"]
 
 
-def gen_cfg(b, maxlen, alphabet=ALPHA, init='InitSetup', nobj=2, cfgs=('c1',), data=('A',), seeds=(1,), sizes=(2,)):
-    return ('INIT %s\nNEXT Next\n' % init +
-            R.session_constants(b, nobj, alphabet, maxlen, data=list(data), seeds=seeds, sizes=sizes,
-                                cfgs=list(cfgs), arts=()) + 'INVARIANT Emit\nCHECK_DEADLOCK FALSE\n')
-
-
 def plan_cfg(b, plan):
-    """(cfg text, nobj, tlc kwargs) of one generation plan for one binding, or None."""
+    """(cfg text, tlc kwargs, nobj) of one generation plan for one binding, or None."""
     if plan['kind'] == 'draw':
         if not b.draw_cfgs:
             return None
-        cfg = gen_cfg(b, plan['maxlen'], alphabet=["New", "Fit", "Sample", "GlobalDraw"], init='Init', nobj=1,
-                      cfgs=b.draw_cfgs, data=('A',))
-        return cfg, 1, {}
+        cfg = SJ.gen_cfg(b, plan['maxlen'], ["New", "Fit", "Sample", "GlobalDraw"], init='Init', nobj=1,
+                         cfgs=b.draw_cfgs, data=('A',))
+        return cfg, {}, 1
     if plan.get('simulate'):
-        cfg = gen_cfg(b, plan['depth'], alphabet=ALPHA_FIT)
-        return cfg, 2, {'simulate': 'num=%d' % plan['simulate'], 'depth': plan['depth'] + 1}
-    return gen_cfg(b, plan['maxlen'], alphabet=ALPHA_FIT if plan.get('fit') else ALPHA), 2, {}
-
-
-def _gen(args):
-    cfg, kw, seed = args
-    behs, r = R.gen_behaviours(cfg, seed=seed if kw else None, **kw)
-    seen = {}
-    for h in behs:
-        seen.setdefault(json.dumps(h, sort_keys=True), h)
-    return list(seen.values()), r.distinct, r.generated
-
-
-def _work(args):
-    name, seedform, items = args
-    b = B.by_name(name)
-    out = {'name': name, 'seedform': seedform, 'viol': [], 'behaviours': 0, 'calls': 0, 'lines': 0,
-           'states': 0, 'generated': 0, 'sample': None, 'cases': []}
-    by_nobj = {}
-    for behs, nobj in items:
-        by_nobj.setdefault(nobj, []).extend(behs)
-    for nobj, behs in sorted(by_nobj.items()):
-        rp = R.Replayer(b, seedform, nobj)
-        try:
-            for i, h in enumerate(behs):
-                rp.run_behaviour(i, h)
-            verdict, tr = rp.validate({})
-            out['behaviours'] += len(behs)
-            out['cases'].extend(
-                hashlib.sha1(('%s|%s|%s' % (name, seedform, json.dumps(h, sort_keys=True))).encode()).hexdigest()[:16]
-                for h in behs if any(e['e'] == 'Sample' for e in h))
-            out['calls'] += rp.calls
-            out['lines'] += len(rp.log)
-            if out['sample'] is None and behs:
-                out['sample'] = {'binding': name, 'behaviour': behs[len(behs) // 2]}
-            for line, clause in verdict:
-                bi, ei, shape = rp.where[line - 1]
-                if relevant(clause, shape):
-                    out['viol'].append({'clause': clause, 'shape': shape, 'behaviour': behs[bi], 'event_index': ei,
-                                        'logged': rp.log[line - 1], 'seedform': seedform, 'binding': name})
-        finally:
-            rp.close()
-    return out
+        cfg = SJ.gen_cfg(b, plan['depth'], ALPHA_FIT)
+        return cfg, {'simulate': 'num=%d' % plan['simulate'], 'depth': plan['depth'] + 1}, 2
+    return SJ.gen_cfg(b, plan['maxlen'], ALPHA_FIT if plan.get('fit') else ALPHA), {}, 2
 
 
 # ---- RandomStateMech bound to the real copulas.utils ------------------------------------------
@@ -256,56 +210,14 @@ def run(ctx):
              {'kind': 'draw', 'maxlen': 4 if quick else 5}]
     binds = B.all_bindings()
     plans_rs = [{'kind': 'main', 'maxlen': 2 if quick else 3}, {'kind': 'draw', 'maxlen': 4}]
-    want = []          # (binding name, seedform, [cfg keys])
-    gens = {}
+    want = []
     for b in binds:
         for form, pl in (('int', plans), ('rs', plans_rs)):
-            keys = []
-            for plan in pl:
-                pc = plan_cfg(b, plan)
-                if pc is None:
-                    continue
-                cfg, nobj, kw = pc
-                key = (cfg, json.dumps(kw, sort_keys=True))
-                gens.setdefault(key, (cfg, kw, ctx.seed + 11))
-                keys.append((key, nobj))
-            want.append((b.name, form, keys))
-    with Pool(min(16, len(gens))) as pool:
-        gkeys = list(gens)
-        gout = pool.map(_gen, [gens[k] for k in gkeys], chunksize=1)
-    gmap = dict(zip(gkeys, gout))
-    for behs, distinct, generated in gout:
-        ctx.states += distinct
-        ctx.transitions += generated
-    jobs = [(n, form, [(gmap[k][0], nobj) for k, nobj in keys]) for n, form, keys in want]
-    jobs.sort(key=lambda j: -sum(len(x[0]) for x in j[2]) * (8 if 'Vine' in j[0] else 1))
-    jobs.append(('__datasets__', 'int', None))
-    with Pool(min(16, len(jobs))) as pool:
-        results = pool.map(_dispatch, jobs, chunksize=1)
-    for res in results:
-        ctx.states += res['states']
-        ctx.transitions += res['generated']
-        ctx.traces += res['behaviours']
-        ctx.evaluations += res['behaviours']
-        ctx.extra.setdefault('real_calls', 0)
-        ctx.extra['real_calls'] += res['calls']
-        ctx.extra.setdefault('trace_lines_validated', 0)
-        ctx.extra['trace_lines_validated'] += res['lines']
-        for k in res.get('cases', []):
-            ctx.cases.add(k)
-        if res['sample']:
-            ctx.sample(res['sample'])
-        for v in res['viol']:
-            sig = 'C15|%s|%s|%s' % (v['binding'], v['clause'], v['shape'])
-            ctx.violation(sig, '%s on %s during %s' % (v['clause'], v['binding'], v['shape']), v)
+            pcs = [pc for pc in (plan_cfg(b, plan) for plan in pl) if pc is not None]
+            want.append((b.name, {'seedform': form}, pcs))
+    SJ.run_session_jobs(ctx, 'C15', want, 'harness.props.C15', ('Sample',),
+                        extra_jobs=[('__datasets__', 'int', None)], extra_fn=('harness.props.C15', '_datasets'))
     ctx.exhaustive = False
-
-
-def _dispatch(job):
-    if job[0] == '__datasets__':
-        return _datasets(job)
-    res = _work(job)
-    return res
 
 
 class DatasetBinding(B.Binding):
